@@ -218,10 +218,12 @@ Section Converters.
     do c <- (if index <? alen a then (do r <- from a index; conv_flags fx r c) else Ok c);
     Ok (expiry_epilogue 65535 c).
 
+  (* PERSIST key takes no value (two arguments); every other name needs three *)
   Definition conv_expire (a : args) : outcome tcmd :=
-    if alen a <? 3 then Err E_ARGCOUNT else
+    let persist2 := (alen a =? 2) && match arg a 0 with Ok n0 => is (upper n0) "PERSIST" | _ => false end in
+    if (alen a <? 3) && negb persist2 then Err E_ARGCOUNT else
     do _k <- arg a 1;
-    do s <- arg a 2;
+    do s <- (if 2 <? alen a then arg a 2 else Ok [48]);        (* no third argument: the value is 0 *)
     match parse_int s with
     | None => Err E_VALUE
     | Some z =>
